@@ -505,14 +505,34 @@ class FixedWidthBinning(BinningBase):
     def is_regular(self, **kwargs) -> bool:
         return True
 
+    def _edge(self, index: int) -> float:
+        """Edge with a given index on the grid (computed exactly as in numpy_bins)."""
+        return index * self._bin_width + self._shift
+
+    def _find_grid_index(self, value) -> int:
+        """Index k of the grid cell for which edge(k) <= value < edge(k+1).
+
+        The quotient is only an estimate because it is rounded;
+        it is corrected against the edges really produced.
+        """
+        index = int(np.floor((value - self._shift) / self._bin_width))
+        while self._edge(index) > value and self._edge(index - 1) < self._edge(index):
+            index -= 1
+        while self._edge(index + 1) <= value and self._edge(index) < self._edge(
+            index + 1
+        ):
+            index += 1
+        return index
+
     def _force_bin_existence_single(self, value, includes_right_edge=None):
         if includes_right_edge is None:
             includes_right_edge = self.includes_right_edge
 
         if self._bin_count == 0:
-            self._times_min = int(np.floor((value - self._shift) / self.bin_width))
+            self._times_min = self._find_grid_index(value)
             if not self._align:
                 self._shift = value - self._times_min * self.bin_width
+                self._times_min = self._find_grid_index(value)
             self._bin_count = 1
             self._bins = None
             self._numpy_bins = None
@@ -520,16 +540,16 @@ class FixedWidthBinning(BinningBase):
         else:
             add_left = add_right = 0
             if value < self.numpy_bins[0]:
-                add_left = int(np.ceil((self.numpy_bins[0] - value) / self.bin_width))
+                add_left = self._times_min - self._find_grid_index(value)
                 self._times_min -= add_left
                 self._bin_count += add_left
             elif value >= self.numpy_bins[-1]:
-                add_right = (value - self.numpy_bins[-1]) / self.bin_width
-                add_right = int(np.ceil(add_right))
+                index = self._find_grid_index(value)
+                new_count = index - self._times_min + 1
+                if self._edge(index) == value and includes_right_edge:
+                    new_count -= 1
+                add_right = new_count - self._bin_count
                 self._bin_count += add_right
-                if self.last_edge == value and not includes_right_edge:
-                    add_right += 1
-                    self._bin_count += 1
             if add_left or add_right:
                 self._bins = None
                 self._numpy_bins = None
